@@ -88,6 +88,18 @@ func vfhC15BoundaryTypes() {
 	gb := gc.Boundary()
 	vfAssert(gb.NumGeometries() == 2, "collection boundary: the non-empty member boundaries")
 	vfAssert(gb.GeometryN(0).Dimension() == 1 && gb.GeometryN(1).Dimension() == 0, "in member order, each one dimension lower")
+	// non-empty members whose boundary is empty (a closed line, lines whose end
+	// points cancel, a nested collection of such) contribute nothing
+	closed := vfLineXY(a, b, c, a)
+	cancel := NewMultiLineString([]LineString{vfLineXY(a, b), vfLineXY(b, a)})
+	nested := NewGeometryCollection([]Geometry{closed.AsGeometry(), pt.AsGeometry()})
+	gc2 := NewGeometryCollection([]Geometry{closed.AsGeometry(), tri.AsGeometry(), cancel.AsGeometry(), nested.AsGeometry(), vfLineXY(b, c).AsGeometry()})
+	gb2 := gc2.Boundary()
+	vfAssert(gb2.NumGeometries() == 2, "members with an empty boundary contribute nothing to the collection's boundary")
+	for i := 0; i < gb2.NumGeometries(); i++ {
+		vfAssert(!gb2.GeometryN(i).IsEmpty(), "no member of a collection's boundary is empty")
+	}
+	vfAssert(NewGeometryCollection([]Geometry{closed.AsGeometry()}).Boundary().IsEmpty() && NewGeometryCollection([]Geometry{closed.AsGeometry()}).Boundary().NumGeometries() == 0, "a collection of closed lines has the empty collection as boundary")
 	vfReach("end")
 }
 
